@@ -19,7 +19,12 @@ Tie to the code on every run:
   * a direct oracle (tiling, share, volume, coverage) on the implementation's windows of every
     table, also for arbitrary doubles; the tiling verdict is cross-checked with the model's own
     `Tiles` predicate;
-  * the whole path ProgramOutputManager.summarize_program_outputs -> *_estimated_emissions.csv.
+  * the whole path ProgramOutputManager.summarize_program_outputs -> *_estimated_emissions.csv;
+  * WHOLE RUNS of the real simulator (harness/wholerun.py, both duration methods, dyadic and
+    non-dyadic factors): tiling / volume (share in component mode) per group of every
+    <program>_<sim>_estimated_emissions.csv, the dates-in-period hypothesis measured on the real
+    survey stream, and the days covered against the simulated days (known finding F7c: the period
+    is [start, end), the last simulated day is in no window).
 """
 from __future__ import annotations
 
@@ -32,7 +37,7 @@ from harness import core
 from harness.adapters import window as W
 
 MANIFEST_ENTRY = {
-    "text": "Lean theorem C13 (with C13_tiling, C13_share, C13_volume, C13_groups_cover, C13_complementary, C13_split_sum, C13_windows_rows) proves for the model of the repaired window code that, in measurement mode per site and in component mode per (site, equipment, component), the estimation windows partition [start date, end date) for every duration factor p/q in [0,1], every table of survey reports, every spacing (equal dates, surveys on the first and last day) and every ordering of neighbouring rates, that the larger bounding measurement receives floor(g f) / ceil(g f) days of each interval and that the volume is rate x days x 864/10; C13_tiling_any_rounding proves the partition for ANY integer in [0, gap] the code may obtain for floor(gap x factor), i.e. independently of floating point. The model is tied to the real gen_estimated_emissions_report / gen_estimated_comp_emissions_report / determine_start_and_end_dates / calculate_start_date / calculate_end_date / calculate_volume_emitted by differential correspondence on generated survey tables (dyadic factors, bit-exact), the float implementation is confronted on f = k/1000 x gap 0..2000 x both orderings and on random doubles with the tiling identity, the admissibility hypothesis and the share clause, and a direct oracle evaluates tiling, share, volume and coverage on every table produced by the real code, including the CSV written by ProgramOutputManager.",
+    "text": "Lean theorem C13 (with C13_tiling, C13_share, C13_volume, C13_groups_cover, C13_complementary, C13_split_sum, C13_windows_rows) proves for the model of the repaired window code that, in measurement mode per site and in component mode per (site, equipment, component), the estimation windows partition [start date, end date) for every duration factor p/q in [0,1], every table of survey reports, every spacing (equal dates, surveys on the first and last day) and every ordering of neighbouring rates, that the larger bounding measurement receives floor(g f) / ceil(g f) days of each interval and that the volume is rate x days x 864/10; C13_tiling_any_rounding proves the partition for ANY integer in [0, gap] the code may obtain for floor(gap x factor), i.e. independently of floating point. The model is tied to the real gen_estimated_emissions_report / gen_estimated_comp_emissions_report / determine_start_and_end_dates / calculate_start_date / calculate_end_date / calculate_volume_emitted by differential correspondence on generated survey tables (dyadic factors, bit-exact), the float implementation is confronted on f = k/1000 x gap 0..2000 x both orderings and on random doubles with the tiling identity, the admissibility hypothesis and the share clause, and a direct oracle evaluates tiling, share (exactly floor/ceil on dyadic factors), volume and coverage on every table produced by the real code, including the CSV written by ProgramOutputManager and the <program>_<sim>_estimated_emissions.csv files of whole runs of the real simulator (both duration methods, dyadic and non-dyadic factors), where the dates-in-period hypothesis is measured on the real survey stream. C13_share_bounded_rounding extends the share clause to every rounding bounded by floor(g f)/ceil(g f) (what IEEE doubles deliver; checked on the grid). The period is [start date, end date): C13_days_covered / C13_inclusive_counterexample and known finding F7c record that the last simulated day is in no window.",
     "design_ref": "DESIGN.md 5.13",
     "note": "trusted: Lean kernel + propext/Classical.choice/Quot.sound; the hand-written model (tied by sampled/structured-exhaustive correspondence, not proof); harness adapters and oracle; exact-rational theorems reach the float code through C13_tiling_any_rounding whose hypothesis (0 <= floor(g*a) <= g, start offset taken by subtraction) is checked on the grid and on random doubles, not proved over IEEE doubles; pandas sort/groupby/shift/diff and numpy floor as installed; survey reports outside [start, end], NaN rates and factors outside [0,1] are outside the statement; the repaired-emissions-to-remove report is not part of C13",
     "technique": "Lean 4 proof over an executable model (exact rationals; tiling for every rounding) + differential correspondence with the real pandas code + exhaustive float grid confrontation + direct oracle",
@@ -121,19 +126,26 @@ def expected_keys(case):
     return {(r[0], r[1], r[2]) for r in recs if r[2] >= 0}
 
 
-def oracle_table(ctx, case, impl, origin="table"):
-    """evaluate the clauses of C13 on the windows the real code produced; returns #violations"""
+def oracle_table(ctx, case, impl, origin="table", exact=False, check_cover=True):
+    """evaluate the clauses of C13 on the windows the real code produced; returns #violations.
+    `exact`: the factor is dyadic (double arithmetic exact), so the share must be exactly floor(g f)
+    when the earlier measurement is larger or equal and exactly ceil(g f) when the later one is larger"""
     (mode, f, S, E, scale, recs) = case
     mname = MODE_NAME[mode]
     inp = {"case": [mode, f, S, E, scale, [list(r) for r in recs]], "origin": origin,
            "dates": {"S": str(W.day2date(S)), "E": str(W.day2date(E))}}
     n0 = len(ctx.violations)
     phi = Fraction(float(f))
-    missing = expected_keys(case) - set(impl)
+    missing = (expected_keys(case) - set(impl)) if check_cover else set()
     if missing:
         ctx.violate(f"C13:coverage:{mname}:missing-group",
                     "a surveyed site/component has no estimation windows",
                     dict(inp, missing=sorted(missing)))
+    unexpected = (set(impl) - expected_keys(case)) if check_cover else set()
+    if unexpected:
+        ctx.violate(f"C13:coverage:{mname}:unexpected-group",
+                    "estimation windows for a site/component without a (component level) report",
+                    dict(inp, unexpected=sorted(unexpected)))
     for key, ws in sorted(impl.items()):
         for kind in tiling_kinds(S, E, ws):
             ctx.violate(f"C13:tiling:{mname}:{kind}",
@@ -154,6 +166,12 @@ def oracle_table(ctx, case, impl, origin="table"):
                     ctx.violate(f"C13:share:{mname}:outside-interval",
                                 "a window reaches beyond the neighbouring survey date",
                                 dict(inp, group=list(key), interval=[a["date"], b["date"]]))
+                elif exact and larger != (lo if b["rate_num"] <= a["rate_num"] else hi):
+                    ctx.violate(f"C13:share:{mname}:floor-ceil-assignment",
+                                "exact factor: the larger measurement must receive floor(gap x f) days when it "
+                                "is the earlier (or equal) one and ceil(gap x f) days when it is the later one",
+                                dict(inp, group=list(key), interval=[a["date"], b["date"]], got=larger,
+                                     expected=lo if b["rate_num"] <= a["rate_num"] else hi))
                 elif not (lo <= larger <= hi):
                     ctx.violate(f"C13:share:{mname}:larger-measurement-days",
                                 "the larger bounding measurement does not receive floor/ceil(gap x factor) days",
@@ -342,7 +360,7 @@ def run_tables(ctx, cases, exact, origin, style_rng):
         if impl is None:
             continue
         ctx.evaluations += max(1, len(impl))
-        oracle_table(ctx, case, impl, origin)
+        oracle_table(ctx, case, impl, origin, exact=exact)
         ctx.count(f"tables_{origin}")
         if 0.0 <= case[1] <= 1.0 and case[2] <= case[3] and all(case[2] <= r[3] <= case[3] for r in case[5]):
             ctx.count("tables_satisfying_theorem_hypotheses")
@@ -469,6 +487,21 @@ def scalar_crosscheck(ctx, fs):
             ctx.count("scalar_factor_calls_crosschecked")
 
 
+# dyadic-factor corpus (model diff + sharpened share oracle)
+CORPUS_EXACT = [
+    # three reports of one site on one date with distinct rates, both table orders (sort stability:
+    # the windows follow the order of the reports in the table), in both modes
+    (0, 0.375, 7671, 7701, SCALE, [(1, -1, -1, 7685, 16), (1, -1, -1, 7685, 3), (1, -1, -1, 7685, 8), (1, -1, -1, 7690, 5)]),
+    (0, 0.375, 7671, 7701, SCALE, [(1, -1, -1, 7685, 3), (1, -1, -1, 7685, 8), (1, -1, -1, 7685, 16), (1, -1, -1, 7680, 5)]),
+    (1, 0.625, 7671, 7701, SCALE, [(1, 1, 1, 7685, 16), (1, 1, 1, 7685, 3), (1, 1, 1, 7685, 8), (1, 1, 2, 7690, 5)]),
+    (1, 0.625, 7671, 7701, SCALE, [(1, 1, 1, 7685, 8), (1, 1, 2, 7690, 5), (1, 1, 1, 7685, 3), (1, 1, 1, 7685, 16)]),
+    # component mode: site 2 has only site-level reports -> no group for it; site 3 has none at all
+    (1, 0.5, 7671, 7701, SCALE, [(1, 1, 1, 7681, 8), (2, -1, -1, 7683, 16), (2, -1, -1, 7690, 3)]),
+    # component mode with site-level reports only -> no report at all
+    (1, 0.5, 7671, 7701, SCALE, [(2, -1, -1, 7683, 16), (2, -1, -1, 7690, 3)]),
+    (1, 0.5, 7671, 7701, SCALE, [(1, 1, 1, 7681, 8), (1, 1, 2, 7691, 16)]),
+]
+
 CORPUS = [
     # the two witnesses of F7 (DESIGN.md 5.13 / section 6), now repaired
     (0, 0.7, 7671, 7701, SCALE, [(1, -1, -1, 7681, 8), (1, -1, -1, 7691, 16)]),
@@ -477,6 +510,149 @@ CORPUS = [
     (1, 0.7, 7671, 7701, SCALE, [(2, 1, 1, 7671, 8), (2, 1, 2, 7701, 16), (2, 2, 1, 7681, 3), (3, 1, 1, 7691, 5),
                                  (3, 1, 1, 7691, 2), (4, -1, -1, 7680, 9)]),
 ]
+
+
+def repeated_site_in_tf(ctx):
+    """audit c.3: ProgramOutputManager merges the windows with measured_tf_df on the site id before
+    writing the CSV.  With the frame the simulator builds (one row per Site object) the merge is
+    1:1; a repeated site id (only possible with a sites file that repeats an id — invalid input,
+    outside the statement) duplicates that site's windows in the file.  Both are exercised; the
+    second is measured and noted, not judged."""
+    case = (0, 0.5, 7671, 7701, SCALE, [(1, -1, -1, 7681, 8), (2, -1, -1, 7691, 16)])
+    ok = W.manager_report(case)
+    oracle_table(ctx, case, ok, origin="manager_csv", exact=True)
+    dup = W.manager_report(case, repeat_tf_site=1)
+    n_ok = sum(len(v) for v in ok.values())
+    n_dup = sum(len(v) for v in dup.values())
+    ctx.extra["repeated_site_id_in_measured_tf_df"] = {
+        "csv_rows_unique_ids": n_ok, "csv_rows_with_site_1_listed_twice": n_dup,
+        "tiling_kinds_site_1": tiling_kinds(case[2], case[3], dup.get((1, -1, -1), [])),
+        "reading": "invalid input (site ids are the keys of the infrastructure); the merge then duplicates windows"}
+    ctx.count("manager_csv_rows_duplicated_by_repeated_site_id", n_dup - n_ok)
+    ctx.traces += 2
+
+
+# ----------------------------------------------------------------------------------------------
+# whole simulations: <program>_<sim>_estimated_emissions.csv of the real simulator
+# ----------------------------------------------------------------------------------------------
+WR_FACTORS = [0.7, 0.3, 0.5, 0.75, 1.0, 0.185, 0.0, 1 / 3]
+COL_SITE, COL_EQG, COL_COMP = "Site ID", "Equipment", "Component"
+COL_START, COL_END, COL_RATE, COL_VOL = "Start Date", "End Date", '"Measured" Rate (g/s)', '"Estimated" Volume Emitted (Kg Methane)'
+COL_DATE = "Survey Completion Date"
+
+
+def wholerun_configs(ctx, n):
+    from harness import wholerun as WR
+    cfgs = []
+    for i in range(n):
+        mode = ["measurement-based", "component-based"][i % 2]
+        # the factor is written to the program parameter files unchanged (non-dyadic ones included)
+        cfg = WR.make_config(ctx.rng, duration_method=mode, duration_factor=WR_FACTORS[i % len(WR_FACTORS)],
+                             n_sims=ctx.pick(1, 2), ndays=ctx.rng.choice([120, 200, 365]))
+        cfgs.append(cfg)
+    return cfgs
+
+
+def wholerun_groups(res, prog, sim, comp_mode):
+    """-> (dict key -> windows in file order, None) or (None, reason)"""
+    rows = res.estimated(prog, sim)
+    if rows is None:
+        return None
+    out = {}
+    for r in rows:
+        key = (r[COL_SITE], r.get(COL_EQG, "") if comp_mode else "", r.get(COL_COMP, "") if comp_mode else "")
+        w = {"start": res.day_index(r[COL_START]), "stop": res.day_index(r[COL_END]),
+             "rate_num": float(r[COL_RATE]), "vol": float(r[COL_VOL])}
+        if comp_mode and r.get(COL_DATE):
+            w["date"] = res.day_index(r[COL_DATE])
+        out.setdefault(key, []).append(w)
+    return out
+
+
+def oracle_wholerun(ctx, res):
+    """tiling / share / volume on every estimated_emissions.csv of one real run, the dates-in-period
+    hypothesis measured on the real survey stream, and the simulated-days reading"""
+    cfg = res.cfg
+    comp_mode = cfg["duration_method"] == "component-based"
+    f = float(cfg["duration_factor"])
+    S, E = 0, res.ndays - 1
+    inp_cfg = {"cfg": cfg}
+    # completed surveys of the real run (trace) and their days
+    for t in res.trace:
+        for ev in t["events"]:
+            if ev[0] == "survey" and ev[11]:
+                ctx.count("wholerun_completed_surveys")
+                if 0 <= ev[1] <= E:
+                    ctx.count("wholerun_completed_surveys_inside_period")
+    for prog in res.programs:
+        for sim in range(res.n_sims):
+            groups = wholerun_groups(res, prog, sim, comp_mode)
+            if groups is None:
+                ctx.count("wholerun_program_sims_without_estimate_file")
+                continue
+            ctx.count("wholerun_estimate_files")
+            ts = res.timeseries(prog, sim)
+            n_sim_days = len(ts) if ts is not None else None
+            # key ids are strings here; oracle_table only needs them to be sortable
+            case = (1 if comp_mode else 0, f, S, E, 1, [])
+            nv = len(ctx.violations)
+            oracle_table(ctx, case, groups, origin=f"wholerun:{prog}:{sim}", check_cover=False)
+            for v in ctx.violations[nv:]:
+                v["input"].update(inp_cfg)
+            for key, ws in groups.items():
+                ctx.evaluations += 1
+                ctx.count("wholerun_groups")
+                if len(ws) > 2:
+                    ctx.count("wholerun_groups_with_surveys")
+                    ctx.nontrivial.add(("wholerun", cfg["duration_method"], f, tuple((w["start"], w["stop"]) for w in ws)))
+                for w in ws:
+                    if "date" in w:
+                        ctx.count("wholerun_report_dates")
+                        if S <= w["date"] <= E:
+                            ctx.count("wholerun_report_dates_inside_period")
+                if not tiling_kinds(S, E, ws) and n_sim_days is not None:
+                    covered = sum(w["stop"] - w["start"] for w in ws)
+                    if covered == n_sim_days - 1:
+                        ctx.violate("C13:period:last-simulated-day-in-no-window",
+                                    "the windows cover [start date, end date) = N-1 days, the simulation ran N days",
+                                    dict(inp_cfg, program=prog, sim=sim, group=list(key), days_covered=covered,
+                                         simulated_days=n_sim_days))
+                    elif covered != n_sim_days:
+                        ctx.violate("C13:period:days-covered",
+                                    "days covered by the windows differ from the simulated days by more than the last day",
+                                    dict(inp_cfg, program=prog, sim=sim, group=list(key), days_covered=covered,
+                                         simulated_days=n_sim_days))
+
+
+def wholerun_stage(ctx):
+    import concurrent.futures as cf
+    from harness import wholerun as WR
+    cfgs = wholerun_configs(ctx, ctx.pick(2, 10))
+    with cf.ThreadPoolExecutor(max_workers=min(6, len(cfgs))) as ex:
+        results = list(ex.map(lambda c: WR.run_config(c, debug=True, trace=True), cfgs))
+    try:
+        for res in results:
+            if res.rc != 0:
+                ctx.count("wholerun_config_crashed")
+                ctx.note("whole-run configuration crashed (not judged by C13): " + res.log[-300:].replace("\n", " | "))
+                continue
+            ctx.count("wholerun_configs")
+            ctx.count("wholerun_configs_" + res.cfg["duration_method"])
+            oracle_wholerun(ctx, res)
+            ctx.traces += 1
+        if results and results[0].rc == 0:
+            r0 = results[0]
+            for prog in r0.programs:
+                rows = r0.estimated(prog, 0)
+                if rows:
+                    ctx.sample({"wholerun": {"method": r0.cfg["duration_method"], "factor": r0.cfg["duration_factor"],
+                                             "period": [str(r0.start), str(r0.end)], "program": prog},
+                                "estimated_emissions_csv_rows": [[r[COL_SITE], r[COL_START], r[COL_END], r[COL_RATE], r[COL_VOL]]
+                                                                 for r in rows[:4]]})
+                    break
+    finally:
+        for res in results:
+            res.cleanup()
 
 
 def _stage(ctx, name, t0):
@@ -506,7 +682,8 @@ def run(ctx):
 
     # corpus first
     run_tables(ctx, CORPUS, exact=False, origin="corpus", style_rng=rng)
-    run_tables(ctx, [c for c in CORPUS if c[1] in (0.5,)], exact=True, origin="corpus_exact", style_rng=rng)
+    run_tables(ctx, CORPUS_EXACT, exact=True, origin="corpus_exact", style_rng=rng)
+    repeated_site_in_tf(ctx)
     ctx.sample({"table_case(mode,f,S,E,scale,recs)": list(CORPUS[0][:5]) + [[list(r) for r in CORPUS[0][5]]],
                 "impl_windows": canon_impl(W.impl_report(CORPUS[0]))[(1, -1, -1)]})
 
@@ -537,7 +714,7 @@ def run(ctx):
     core_fs = fs8 if not ctx.quick else sorted(rng.sample(fs8, 3) + [0.5])
     cases = list(exhaustive_small_tables(core_fs))
     run_tables(ctx, cases, exact=True, origin="exhaustive_small", style_rng=rng)
-    n_rand = ctx.pick(300, 4000)
+    n_rand = ctx.pick(240, 3800)
     cases = [random_table(rng, dyadic_factor(rng), big=(i % 25 == 0)) for i in range(n_rand)]
     for j in range(0, len(cases), 500):
         run_tables(ctx, cases[j:j + 500], exact=True, origin="random_exact", style_rng=rng)
@@ -565,6 +742,11 @@ def run(ctx):
         ctx.traces += 1
         ctx.evaluations += 1
     t = _stage(ctx, "manager_csv", t)
+    wholerun_stage(ctx)
+    t = _stage(ctx, "wholerun", t)
+    ctx.assumptions.append("the period of the statement is [start date, end date): the last window ends ON the end "
+                           "date as the property says, the last simulated day itself is in no window (known "
+                           "finding F7c, C13_inclusive_counterexample)")
     ctx.assumptions.append("survey reports lie inside [start date, end date]; rates are finite (grid n/8 g/s); "
                            "factor in [0,1]; exact-rational theorems reach the float code through "
                            "C13_tiling_any_rounding, whose hypothesis is checked on the grid, not proved over doubles")
@@ -572,6 +754,24 @@ def run(ctx):
 
 def replay(ctx, data):
     inp = data.get("input", {})
+    if "cfg" in inp:
+        from harness import wholerun as WR
+        res = WR.run_config(inp["cfg"], debug=True, trace=True)
+        try:
+            if res.rc != 0:
+                print("replay: the configuration crashed:", res.log[-500:])
+                return 2
+            ctx.nontrivial = _Keys()
+            oracle_wholerun(ctx, res)
+        finally:
+            res.cleanup()
+        seen = set()
+        for v in ctx.violations:
+            if v["signature"] not in seen:
+                seen.add(v["signature"])
+                i = v["input"]
+                print("oracle:", v["signature"], "-", v["what"], {k: i[k] for k in i if k not in ("cfg", "case")})
+        return 1 if ctx.violations else 0
     if "case" not in inp:
         print("replay: broken obligation / correspondence:", data.get("broken_obligations"),
               data.get("correspondence_disagreements"))
